@@ -214,6 +214,14 @@ def step (s : DState) : List String → DState × String
           | some r => enc r.plugin ++ "\t" ++ encList r.path ++ "\t" ++ (if r.wrapped then "1" else "0") ++ "\t" ++ encSpecList r.spec
           | none => "bad-op")
     | none => (s, "bad-op")
+  | ["nnocap"] => (s, toString Gen.noCapabilitySites.length)
+  | ["nocapsite", i] =>
+    match i.toNat? with
+    | some i =>
+      (s, match Gen.noCapabilitySites[i]? with
+          | some (w, m) => enc w.toList ++ "\t" ++ m
+          | none => "bad-op")
+    | none => (s, "bad-op")
   | ["nrequired"] => (s, toString requiredGuards.length)
   | ["required", i] =>
     match i.toNat? with
